@@ -286,3 +286,18 @@ def revive_dead_components(sessions, means, variances):
         if "sum_pxx" in s:
             s["sum_pxx"][c] = 0.5 * (means[c] ** 2 + variances[c])
     return sessions
+
+
+PRESENTATIONS = ["plain", "plain", "plain", "fortran", "strided", "list", "int"]
+
+
+def presentation(draw, X=None):
+    """How a caller hands the same numbers over: C-order float64 (default), Fortran order, a strided view of a
+    larger buffer, nested Python lists, or an integer-typed array (only when the case's values are integral;
+    the caller of this function rounds them first).  The reference always sees the float64 values."""
+    return choice(draw, PRESENTATIONS)
+
+
+def integral(X, scale=1.0):
+    """Round the rows to integers (in units that keep them distinct enough) for the 'int' presentation."""
+    return np.rint(np.asarray(X, dtype=float))
